@@ -913,5 +913,5 @@ MANIFEST = {
     "level": "Static structural decision over all families: the database-driven class compositions are reconstructed and linted exhaustively; flag and window agreement is proved "
              "(bit provenance, constant windows); pipeline inversion order and the append/cut pairs are decided on the AST. Byte-level round trip is not decided.",
     "note": "Trusted: devdb merge model, C3 MRO model, struct. Known findings: image-type ambiguity (signed_ram vs signed_xip) in several families.",
-    "technique": "static analysis: bit provenance, slice-window rules, database lint with statically reconstructed MRO, pipeline-order and append/cut structural rules, key flow, guarded/symbolic path decision tables, finite-model evaluation of finalize and of the relocation table writer/reader (methods stepped into)",
+    "technique": "static analysis: bit provenance, slice-window rules, database lint with statically reconstructed MRO, pipeline-order and append/cut structural rules, key flow, guarded/symbolic path decision tables, finite-model evaluation of finalize and of the relocation table writer/reader (methods stepped into), revision flow over callers that carry self.revision, encrypted-image layout borrowed from C02",
 }
